@@ -61,6 +61,20 @@ def r1(ctx, cfg):
                             okv = False
             ctx.ob(R, SUDO, "percentage-validated-before-slash", okv, "slash is reachable for a percentage above 1 (no `percentage > Decimal::one()` guard ending in an error on the same percentage)", fn=f, line=t["line"],
                    sample="slash dominated by !(percentage > 1); the other edge only returns Err")
+            # "a fraction above one or an unknown validator is rejected": no success result of the Slash arm without the guard
+            # and a successful slash
+            def arm_of(b2):
+                arms = [c[2][0] for e, c in q.dominating_conditions(P, f, b2) if c[0] == "variant_in" and len(c[2]) == 1 and is_param(c[1], "msg")]
+                return arms[0] if arms else ""
+            # (StakingSudo has a single variant today: no switch on the message then, the whole function is the arm)
+            switches_on_msg = any(t2["k"] == "switch" and "discr_of" in t2 and is_param(P.place(f, t2["discr_of"], (b2, "t")), "msg")
+                                  for b2 in f.order for t2 in [f.blocks[b2]["term"]])
+            out = q.successes_outside(P, f, lambda cs: q.succeeded(cs, SK + "slash") and q.has_cond(cs, "lt", pol=False, arg_pred=lambda x: peel(x[0])[0] == "call" and
+                                                                                                peel(x[0])[1].endswith("Decimal::one") and same_origin(x[1], a[5])),
+                                      only=(lambda b2: arm_of(b2) == "Slash") if switches_on_msg else None)
+            ctx.ob(R, SUDO, "slash-succeeds-only-validated-and-applied", not out,
+                   "the Slash arm can produce a success at block(s) %s without `!(percentage > 1)` and a successful slash" % out, fn=f,
+                   sample="every non-Err result of the arm dominated by the guard and Continue(slash(..))")
             ctx.ob(R, SUDO, "slash(validator, percentage)-of-the-message", contains(a[4], lambda x: is_param_field(x, "msg", "validator")) and is_param_field(a[5], "msg", "percentage"),
                    "slash(%s, %s)" % (fmt(a[4])[:40], fmt(a[5])[:40]), fn=f, sample="(&validator, percentage)")
             st = peel(a[2])
@@ -69,6 +83,10 @@ def r1(ctx, cfg):
     key = SK + "slash"
     f = ctx.need_fn(R, key)
     if f is not None:
+        out = q.successes_outside(P, f, lambda cs: q.succeeded(cs, SK + "update_rewards"))
+        ctx.ob(R, key, "succeeds-only-for-a-known-validator", not out,
+               "slash can produce a success at block(s) %s without update_rewards (which rejects an unknown validator) having succeeded" % out, fn=f,
+               sample="every non-Err result dominated by Continue(update_rewards(..))")
         ur = q.calls(f, SK + "update_rewards")
         accesses = store_calls(P, f, STAKES, ("save", "remove", "update", "load", "may_load")) + store_calls(P, f, VINFO, ("save", "remove", "update", "load", "may_load")) + \
             store_calls(P, f, QUEUE, ("save", "may_load"))
